@@ -18,13 +18,38 @@ def rec_tokens(items, opts):
     return out
 
 
+_INTERN = {}
+
+
+def intern(s):
+    return _INTERN.setdefault(s, len(_INTERN) + 1)
+
+
+def strict_run(g, text, recovered):
+    """what error_recovery=False does on the same text (values only)"""
+    from parso.parser import ParserSyntaxError
+    aux = {'sraised': False, 'sval': [], 'ss': [0, 0], 'sdump': 0, 'rdump': intern(recovered.dump(indent=None)),
+           'stt': ''}
+    try:
+        m2 = g.parse(text, error_recovery=False)
+        aux['sdump'] = intern(m2.dump(indent=None))
+    except ParserSyntaxError as e:
+        aux['sraised'] = True
+        aux['sval'] = cps(e.error_leaf.value)
+        aux['ss'] = list(e.error_leaf.start_pos)
+        tt = e.error_leaf.token_type
+        aux['stt'] = getattr(tt, 'name', str(tt))
+    return aux
+
+
 def rec_trees(items, opts):
     """opts: nav, parts, posq (max number of positions, 0 = none), code_budget, bytes (encode the text and parse bytes)"""
     out = []
     rng = random.Random(opts.get('seed', 0))
     for tid, text, ver, origin in items:
         tr = {'id': tid, 'ver': ver, 'origin': origin, 'inp': cps(text), 'nodes': [], 'posq': [],
-              'raised': False, 'exc': '', 'nontrivial': False}
+              'raised': False, 'exc': '', 'nontrivial': False,
+              'aux': {'sraised': False, 'sval': [], 'ss': [0, 0], 'sdump': 0, 'rdump': 0, 'stt': ''}}
         try:
             src = text
             if opts.get('bytes'):
@@ -36,10 +61,51 @@ def rec_trees(items, opts):
                 anc_types=ANC_TYPES if opts.get('anc') else ())
             tr['nodes'] = nodes
             tr['exc'] = ';'.join(sorted(set(excs)))
+            if opts.get('modes'):
+                tr['aux'] = strict_run(g, text, m)
             if opts.get('posq'):
                 tr['posq'] = record.position_queries(m, text, opts['posq'], rng)
             tr['nontrivial'] = any((not n['leaf'] and i > 0) or n['type'] in ('error_leaf',)
                                    for i, n in enumerate(nodes))
+        except Exception as e:  # noqa
+            tr['raised'] = True
+            tr['exc'] = record.exc_key(e)
+        out.append(tr)
+    return out
+
+
+def rec_conform(items, opts):
+    """light tree table for ConformTrace: type, leaf, tt, sv, kids, eof"""
+    out = []
+    for tid, text, ver, origin in items:
+        tr = {'id': tid, 'ver': ver, 'origin': origin, 'text': text, 'nodes': [], 'raised': False, 'exc': '',
+              'nontrivial': False}
+        try:
+            g, m = record.parse(text, ver)
+            order = record.walk(m)
+            idx = {id(n): i + 1 for i, n in enumerate(order)}
+            # eof: everything after the node's last leaf is an endmarker or a zero-width layout error leaf
+            leaves = [n for n in order if not hasattr(n, 'children')]
+            tail_ok = [False] * len(leaves)
+            ok = True
+            for j in range(len(leaves) - 1, -1, -1):
+                tail_ok[j] = ok      # are all leaves AFTER j ignorable?
+                lf = leaves[j]
+                ign = lf.type == 'endmarker' or (lf.type == 'error_leaf' and lf.token_type in
+                                                 ('INDENT', 'DEDENT', 'ERROR_DEDENT'))
+                ok = ok and ign
+            lrank = {id(l): j for j, l in enumerate(leaves)}
+            nodes = []
+            for n in order:
+                leaf = not hasattr(n, 'children')
+                last = n if leaf else n.get_last_leaf()
+                nodes.append({'type': n.type, 'leaf': leaf,
+                              'tt': getattr(n, 'token_type', '') if leaf else '',
+                              'sv': n.value if leaf and n.type in ('keyword', 'operator') else '',
+                              'kids': [] if leaf else [idx[id(c)] for c in n.children],
+                              'eof': tail_ok[lrank[id(last)]]})
+            tr['nodes'] = nodes
+            tr['nontrivial'] = any(not n['leaf'] for n in nodes[1:])
         except Exception as e:  # noqa
             tr['raised'] = True
             tr['exc'] = record.exc_key(e)
